@@ -870,3 +870,19 @@ Proof.
   - intros H. inversion H. left. reflexivity.
   - intros H. right. apply IH. exact H.
 Qed.
+
+(* the same with a list of names that covers the failing ones (it may name more: a setter that has
+   been repaired since is then simply not spoken about) *)
+Definition covers (excl failing_names : list string) : bool := forallb (fun n => mem_s n excl) failing_names.
+
+Theorem table_atomic_cover E tbl excl :
+  covers excl (failing E tbl) = true ->
+  forall name ir s a,
+    In (name, ir) tbl -> ~ In name excl ->
+    is_err (snd (exec E ir s a)) = true -> fst (exec E ir s a) = s.
+Proof.
+  intros Hc name ir s a Hin Hex Herr.
+  apply (table_atomic E tbl (failing E tbl) eq_refl name ir s a Hin); [|exact Herr].
+  intros Hf. apply Hex. unfold covers in Hc. rewrite forallb_forall in Hc.
+  apply mem_s_In. apply Hc. exact Hf.
+Qed.
